@@ -54,6 +54,21 @@ claim("C18", "size_in_bytes == bytes emitted == whitepaper size, and record head
 claim("C19", "All 2^32 codes are covered symbolically in one SAT query per obligation: ShapeType::from is a partial bijection onto the 14 ESRI codes, "
       "invalid codes in a header or record give InvalidShapeType(code), predicates and Display names equal a literal ESRI table. Exhaustive for the code domain.")
 
-_pending = "check not built yet in this session (planned harness family in DESIGN.md section 4)"
-for p in ["C03","C08","C14","C15","C16","C20"]:
-    na(p, _pending)
+claim("C03", "Files produced by the independent encoder in layouts the library's writer never emits (optional M block absent per record for M/Z/multipatch types, 24-byte PointZ, null records in a typed file and type-0 files, "
+      "zero parts / zero points, empty and single-vertex parts, arbitrary ring orientation, arbitrary stored boxes and record numbers, garbage behind the declared length) must be decoded by the real reader to exactly the stored geometry; payload symbolic.",
+      "Typed iteration for all families; generic iteration for point types and null records; generic decode of multi-vertex records at Shape::read_from (Kani enum-move limitation). Structures up to 2 parts x 4 points, 3 records.")
+claim("C08", "Write side of the pairing through the complete Writer with the real dbase::TableWriter: after histories of valid and failing write_shape_and_record calls the .shp record count, .shx entry count and .dbf row count are compared. "
+      "The defect the property describes (row rejected after the shape was written) is found and listed as an open known finding.",
+      "Read side (ShapeRecordIterator over dbase::Reader, Reader::seek) is OUTSIDE the claim: dbase::Reader::new did not finish symbolic execution. Only stub: the clock read for the .dbf header date.")
+claim("C14", "Point records laid out by the independent encoder in every permutation of 3 (and 2) with filler words before/between/after (symbolic filler bytes), index in logical order: iteration must yield one shape per index entry in index order, equal to random access; "
+      "one harness per layout. The defect found (records stored before an earlier-indexed one dropped) is fixed in /repo.",
+      "Multi-vertex records only in physical order without gaps (with a gap or swap the position after a `?` read is not a constant for CBMC and vertex loops become unbounded); the index logic does not depend on the record type.")
+claim("C15", "One harness per history over {iterate j items, random access, seek, shape count} on a 3-record Point file with index; every return value is compared with the specification and the final iteration must be one of the sequences the statement allows. "
+      "Two history dependences found (after seek(k>0); after a previous iteration) are open known findings.",
+      "Equal-size Point records only; complete Reader (dbf rows) outside (see C08). Histories: 8 quick, 15 thorough, length <= 3.")
+claim("C16", "Real constructors (with_rings, new, polygon! macro, Multipatch::with_parts) on rings whose interior vertices are symbolic (integer X/Y in [-8,8] for the exact-area oracle, arbitrary non-NaN Z/M) and whose closedness is fixed by concrete end vertices: "
+      "closed, role kept, sequence kept or reversed as a whole, orientation by exact integer shoelace, idempotent on non-zero area; orientation kernel alone against the integer oracle; the six patch kinds.",
+      "Rings of 3-5 vertices (6 in thorough); rings whose two end vertices are both fully symbolic are outside (symbolic closedness exhausts the solver).")
+claim("C20", "Crate kani-geo (shapefile with geo-types, geo-traits): point/multipoint/polyline round trips with symbolic coordinates; polygon <-> multipolygon grouping for ring sequences O, O O, O I I O I (hole assignment), geo polygon -> shape; Shape <-> Geometry dispatch and refusals; "
+      "geo-traits: for all PointZ/PointM/Point bit patterns every index below dim().size() is readable and returns the matching field (defect found for NaN measures, fixed in /repo).",
+      "Polygon grouping harnesses use concrete ring coordinates (grouping is structural).")
